@@ -126,7 +126,7 @@ CLAIMED = {
              'not depend on their order, and when they are the merged table is the same map and the merged range the same interval; at the '
              'level of whole LIBRARIES GroupLibrary.Update is proved to work group by group and two libraries merged into a third in either order '
              'leave every group with the same table and range - also stated for a library FILE with two includes loaded in either order '
-             '(C13_library_update_groupwise, C13_library_order_free, C13_two_includes_order_free, C13_loaded_keys_unique); for ANY NUMBER of libraries in ANY ORDER: the merged table is exactly the union of what the sources give for the group, and permuted merge sequences / permuted include lists agree on every table and range (C13_library_sequence_is_union, C13_library_any_order, C13_includes_any_order; for deeper '
+             '(C13_library_update_groupwise, C13_library_order_free, C13_two_includes_order_free, C13_loaded_keys_unique); for ANY NUMBER of libraries in ANY ORDER: the merged table is exactly the union of what the sources give for the group, and permuted merge sequences / permuted include lists agree on every table and range (C13_library_sequence_is_union, C13_library_sequence_range, C13_library_any_order, C13_includes_any_order; for deeper '
              'include trees and the reference values order-freeness is decided by the tree oracle; for files sharing one T_ref the merged reference enthalpy AND entropy are the other file\'s value where given - after the tolerance comparison - else the value there: C13_update_H_same_Tref, C13_update_S_same_Tref). IDEMPOTENCE: merging the same correlation a second '
              'time succeeds and returns the identical correlation - table, range, reference enthalpy and entropy, re-fit (C13_update_twice, for any '
              'reflexive isclose). '
